@@ -249,6 +249,19 @@ def extract_hooks(tree):
         raise ExtractError("janet_chanat_unmarshal: negative count test not recognised")
     if not re.search(r"for\s*\(\s*int32_t\s+i\s*=\s*0\s*;\s*i\s*<\s*count\s*;\s*i\+\+\s*\)\s*\{\s*Janet\s+item\s*=\s*janet_unmarshal_janet\s*\(\s*ctx\s*\)\s*;\s*janet_q_push\s*\(\s*&abst->items\s*,\s*&item\s*,\s*sizeof\s*\(\s*item\s*\)\s*\)\s*;\s*\}", cu):
         raise ExtractError("janet_chanat_unmarshal: item loop not recognised")
+    pg = csrc.strip_comments(csrc.read(tree, "src/core/peg.c"))
+    pm = csrc.func_body(pg, "peg_marshal")
+    pu = csrc.func_body(pg, "peg_unmarshal")
+    out["pegMarshalCalls"] = _calls(pm, "peg_marshal")
+    out["pegUnmarshalCalls"] = _calls(pu, "peg_unmarshal")
+    if not re.search(r"for\s*\(\s*size_t\s+i\s*=\s*0\s*;\s*i\s*<\s*peg->bytecode_len\s*;\s*i\+\+\s*\)\s*janet_marshal_int\s*\(\s*ctx\s*,\s*\(int32_t\)\s*peg->bytecode\[i\]\s*\)\s*;\s*"
+                     r"for\s*\(\s*uint32_t\s+j\s*=\s*0\s*;\s*j\s*<\s*peg->num_constants\s*;\s*j\+\+\s*\)\s*janet_marshal_janet\s*\(\s*ctx\s*,\s*peg->constants\[j\]\s*\)\s*;", pm):
+        raise ExtractError("peg_marshal: bytecode / constants loops not recognised")
+    if not re.search(r"for\s*\(\s*size_t\s+i\s*=\s*0\s*;\s*i\s*<\s*peg->bytecode_len\s*;\s*i\+\+\s*\)\s*bytecode\[i\]\s*=\s*\(uint32_t\)\s*janet_unmarshal_int\s*\(\s*ctx\s*\)\s*;\s*"
+                     r"for\s*\(\s*uint32_t\s+j\s*=\s*0\s*;\s*j\s*<\s*peg->num_constants\s*;\s*j\+\+\s*\)\s*constants\[j\]\s*=\s*janet_unmarshal_janet\s*\(\s*ctx\s*\)\s*;", pu):
+        raise ExtractError("peg_unmarshal: bytecode / constants loops not recognised")
+    if not re.search(r"if\s*\(\s*bytecode_len\s*>\s*INT32_MAX\s*\|\|\s*num_constants\s*>\s*INT32_MAX\s*\)\s*janet_panic", pu):
+        raise ExtractError("peg_unmarshal: size test not recognised")
     return out
 
 
